@@ -146,6 +146,18 @@ def r3(R, repo):
       R.check(flow.kw_forwarded(x, 'mask'), key_of(f, 'mask forwarded', astu.short(x, 60)), (f, x), evidence=not astu.has_star_kwargs(x) and len(x.args) < 2, msg_fail=
               '`%s` does not pass mask=mask: this statistic is then averaged over masked-out (padding) positions too, so padding leaks into the normalised outputs and running variance' % astu.short(x, 80))
     h = repo.func(rel, '_compute_stats.maybe_distributed_mean')
+    # a hand-written masked mean (sum of kept values / number of kept values) is right only when the count is taken over the
+    # mask broadcast to the shape of x; `sum(mask)` counts the mask's own elements
+    hand = None
+    for n_ in ast.walk(h.node):
+      if isinstance(n_, ast.BinOp) and isinstance(n_.op, ast.Div):
+        for den in evid.expand(h, n_.right):
+          if isinstance(den, ast.Call) and astu.call_tail(den) == 'sum' and den.args and any(isinstance(a_, ast.Name) and a_.id == 'mask' for a_ in den.args[:1]) and \
+              not any(isinstance(y_, ast.Call) and astu.call_tail(y_) in ('broadcast_to', 'broadcast_arrays') for y_ in ast.walk(den)):
+            hand = n_
+    if hand is not None and 'where=mask' not in astu.src(h.node).replace(' ', '').replace('where=mask,', 'where=mask') :
+      R.fail(key_of(h, 'mean(axes, where=mask)'), (h, hand), '`%s` divides the masked sum by the number of True entries of the mask itself: a mask that is broadcast against x (e.g. one flag per position for all features) gives a count that is too small, so the statistics are scaled wrongly; x.mean(axes, where=mask) counts the broadcast positions' % astu.short(hand))
+      continue
     R.check('x.mean(axes, where=mask)' in astu.src(h.node), key_of(h, 'mean(axes, where=mask)'), h, 'the helper must reduce with where=mask')
     t = astu.src(f.node)
     R.check('var = jnp.maximum(0.0, mu2 - _abs_sq(mu))' in t and '_abs_sq(x - jnp.expand_dims(mu, axes))' in t, key_of(f, 'variance = E|x|^2 - |E x|^2 (fast) / E|x - mu|^2 (two-pass)'), f, 'the variance must be E|x|² − |E x|² (clamped at 0) or E|x − mean|²')
